@@ -21,14 +21,14 @@ def shape(frames, oks):
 
 
 def views(texts):
-    """view of an exchange for C01: per frame its length and the Spec's verdict on it, plus raised-or-not"""
+    """view of an exchange for C01: per frame its length and the Spec's verdict on it"""
     split = [oc.split_text(t) for t in texts]
     flat = [f for fs, _ in split for f in fs]
     verdict = lib.run_model([lib.req("frame_ok", bytes.fromhex(f)) if len(f) % 2 == 0 else "frame_ok -" for f in flat]) if flat else []
     out = []; i = 0
     for fs, o in split:
         v = verdict[i:i + len(fs)]; i += len(fs)
-        out.append(shape(fs, v) + " / " + ("raised" if o.startswith("exc:") else "returned"))
+        out.append(shape(fs, v) or "no frame")         # what the call returned or raised is not this property's subject
     return out
 
 
